@@ -122,6 +122,10 @@ def has_arith(src, lo, hi):
         if t.kind != "punct":
             continue
         if t.text == "[":
+            # `x[..]` (the full range) cannot go out of bounds: not an index obligation; neither is a `{=[u8]}`-style format
+            # type inside a string (strings are single tokens and never reach here)
+            if i + 3 < hi and toks[i + 1].text == "." and toks[i + 2].text == "." and toks[i + 3].text == "]":
+                continue
             return True
         if t.text in ARITH:
             if t.text == "-" and i + 1 < hi and toks[i + 1].text == ">" and toks[i + 1].start == t.end:
